@@ -138,7 +138,12 @@ class C06(Check):
             for rv in (c["regvals"] if c.get("mem") != "devvar" else []):
                 tgt = ["p", "v", c.get("preg", 9)] if c.get("mem") == "ptr" else ["v", "v"]
                 # "xdp": the statement sits in an XDP program with a minimum packet size (a packet object exists)
-                b = dsl.build(decls, [["set", ["r", "r", 3], ["c", rv]], [c["op"], tgt, c["amount"]]], xdp_min=c.get("xdp"))
+                st = [["set", ["r", "r", 3], ["c", rv]], [c["op"], tgt, c["amount"]]]
+                if i % 3 == 2 and c.get("mem") in ("array", "percpu") and c["shared"]:
+                    # ... directly after a conditional block that is SKIPPED at run time and whose last statement is the same in-place
+                    # addition on the neighbouring variable: whatever the generator remembers from the block must not be relied upon
+                    st.insert(1, ["if", ["==", ["v", "o"], ["c", c["oval"] + 1]], [[c["op"], ["v", "n1"], c["amount"]]], None])
+                b = dsl.build(decls, st, xdp_min=c.get("xdp"))
                 if b.error is not None:
                     c["_err"] = b.error
                     break
